@@ -390,3 +390,22 @@ profiles.CHECKS["C09"]["profiles"] = [("clean_hpc", 0.5), ("cancel", 0.25), ("re
 profiles.CHECKS["C02"]["profiles"] = [("clean_hpc", 0.55), ("clean_local", 0.25), ("resubmit", 0.2)]
 profiles.RULES["C02"] = profiles.RULES["C02"].replace("HPC and local mode;", "HPC and local mode, plus resubmission epochs (blockers that are rerun must have a new outcome);")
 profiles.RULES["C09"] = profiles.RULES["C09"].replace("as C01;", "as C01, plus cancel and resubmit histories;")
+
+# C16 / C20 over resubmission epochs: setup is not rerun, teardown is; the event summary is
+# consolidated again (resubmit-jobs clears events/)
+profiles.profile("resubmit_hooks", mode="hpc", fault_free=True, no_liveness=True, kind="world", gen=gen_resubmit,
+                 extra_monitors=_extra, driver_cls=ResubmitDriver, max_jobs=6, p_reports=0.3, p_fail=0.45,
+                 p_hooks=0.5, max_steps=60000)
+profiles.profile("resubmit_reports", mode="hpc", fault_free=True, no_liveness=True, kind="world", gen=gen_resubmit,
+                 extra_monitors=_extra, driver_cls=ResubmitDriver, max_jobs=6, p_reports=0.7, p_fail=0.45,
+                 p_job_events=0.5, p_monitor=0.3, max_steps=60000)
+profiles.PROFILE_PROPS["resubmit_hooks"] = ["C16"]
+profiles.PROFILE_PROPS["resubmit_reports"] = ["C20"]
+profiles.CHECKS["C16"]["profiles"] = [("clean_hpc_hooks", 0.5), ("clean_local_hooks", 0.3), ("resubmit_hooks", 0.2)]
+profiles.CHECKS["C20"]["profiles"] = [("clean_hpc_reports", 0.4), ("clean_local_reports", 0.2), ("resubmit_reports", 0.15),
+                                      ("comp_events", 0.25)]
+profiles.CHECKS["C20"]["quick"] = {"runs": 3200}
+profiles.RULES["C16"] += "; plus resubmission epochs (setup not rerun, teardown once per completion)"
+profiles.RULES["C20"] += ("; plus resubmission epochs (the summary is consolidated again) and a component simulation of "
+                          "EventsSummary (drawn multisets over per-process files, ties, skewed clocks, reload, re-consolidation, "
+                          "resubmission sequence) and ResourceMonitorAggregator (drawn sample sequences per statistic)")
